@@ -77,11 +77,14 @@ CHECKS = {
              'stations than the minimum contributes nothing and otherwise contributes its term on exactly the shared stations, which do not '
              'depend on the order in which the other event lists them; the scale factor combined over stations is the inverse-variance '
              'weighted mean of the per-station estimates (variance: harmonic combination) and is independent of station order, for any '
-             'number of stations and positive uncertainties. The unit test runs one two-event case and checks types and shapes.',
+             'number of stations and positive uncertainties; the per-station estimate regenerated from scale_estimator on every run '
+             '(py_scale_mu) differs from the noise-free ratio mu_y z / mu_x by exactly (A s1^2 - C mu1)/N and by at most '
+             '(py^2 mu_y^2 z^2 + px^2 mu_x^2)/(mu_x mu_y z) + 2 sqrt(2/pi) py mu_x/(mu_y z), which tends to zero with the fractional errors '
+             '(zero-noise limit, for all positive amplitudes, ratios and errors). The unit test runs one two-event case and checks types and shapes.',
         note='joint theorems closed under the global context; ' + AX_R + 'for the combination theorems. Models are hand-written: tied by running '
              'the real MultipleEventsForwardTask with integer-coded stubs for the per-event task and the pair likelihood (combine=True, '
-             'return_zero=True) and by bit-exact execution of combine_mu. The per-station estimate and its zero-noise limit (true ratio) '
-             'are judged on the implementation only; zero-filtering branches are not exercised; joint tasks with several location samples are exercised by one fixed probe (known finding).',
+             'return_zero=True) and by bit-exact execution of combine_mu. The regenerated per-station estimate is validated against scale_estimator and '
+             'the proved bound is checked on the implementation; the zero-noise behaviour of the whole estimator is also judged on the implementation; zero-filtering branches are not exercised; joint tasks with several location samples are exercised by one fixed probe (known finding).',
         design='6 C15'),
     'C18': dict(
         technique='Coq proof (list induction, lia) about a hand-written executable model of the scatangle block parser, writer and greedy binning; vm_compute correspondence against the real functions on generated files',
